@@ -265,7 +265,8 @@ PROPS = {
 
     "C15": dict(
         level="fault_enumeration",
-        rule="generated scenarios on named outputs (plain/gzip/xz; 1..4 outputs; record sizes 10 B..30 KB so that some outputs need many OS writes and some none before close; rotation onto fresh names, "
+        rule="generated scenarios on named outputs (plain/gzip/xz; 1..4 outputs; ordinary names, names whose last path component is 251..255 characters long, names whose '.part' path is occupied by a "
+             "directory - the library refuses the latter two; record sizes 10 B..30 KB so that some outputs need many OS writes and some none before close; rotation onto fresh names, "
              "onto names holding a complete older file, onto names used earlier in the scenario; destruction with and without buffered data) x EVERY crash point k = 1..N, where the process is killed "
              "(_exit) immediately before its k-th write/writev/rename (interposed in the harness, counted by a fault-free reference run in a forked child). Oracle: every directory entry not ending "
              "in .part is byte-identical to the pre-existing file of that name or to a completed output of that name (snapshots of the reference run, each validated as a complete stream + valid document). "
@@ -278,7 +279,8 @@ PROPS = {
     ),
     "C16": dict(
         level="fault_enumeration",
-        rule="the C15 scenarios for file-name AND descriptor outputs x EVERY fault point k = 1..N (k-th write/writev) x {ENOSPC, EIO, short write} x {once, persistent for that file}; after the first "
+        rule="(a) exhaustive alignment sweep: one block ending in a text string (or name) of every length 0..2250, closed by rotate_output(fd,false), so that for some length the encoder buffer is exactly "
+             "full at the rotation and write_break() itself issues a write; x every fault point x fault kind. (b) the C15 scenarios for file-name AND descriptor outputs x EVERY fault point k = 1..N (k-th write/writev) x {ENOSPC, EIO, short write} x {once, persistent for that file}; after the first "
              "exception the documented recovery runs (rotate_output to a healthy destination without export, write_block, destruction). Oracles: (a) if the output hit by the fault differs from the "
              "fault-free one, some API call up to the rotate_output closing it threw; (b) after an exception from buffer_qr/write_block the item counter equals the failed block's size; (c) recovery rotate "
              "succeeds, the recovery output is valid, and every record of the failed block appears exactly once in the recovery output or in the (valid) damaged output. Failures are reduced to the signature "
@@ -287,7 +289,10 @@ PROPS = {
         level_note="destruction cannot throw and is outside the guarantee; short writes that libstdc++ retries successfully lose nothing and demand nothing",
         technique="property-based testing with fault injection: generated scenarios x exhaustive fault-point enumeration, signature-based known findings",
         assumptions=["a persistent failure is tied to the file (device, inode), not to the descriptor number"],
-        jobs=[dict(harness="crash", prop="c16_faults", cases=(480, 32000), size=(30, 60))],
+        jobs=[
+            dict(harness="crash", prop="c16_align", kind="enum"),
+            dict(harness="crash", prop="c16_faults", cases=(480, 32000), size=(30, 60)),
+        ],
     ),
 
     "C20": dict(
